@@ -24,7 +24,7 @@ func (node *FilterNode) isHeadersQualified(
 		return true
 	}
 
-	if flow.IsUserFlow() && len(node.filterRequirements.headers) == 0 {
+	if flow.IsUserFlow() && len(flow.GetFilter().GetAllowedHeaders()) == 0 {
 		log.Trace().Msgf("Headers not specified on Flow: %s", flow.GetName())
 		return true
 	}
@@ -53,7 +53,7 @@ func (node *FilterNode) isStatusCodeQualified(
 	flow internaltypes.FlowI,
 	APIStream publictypes.APIStreamI,
 ) bool {
-	if flow.IsUserFlow() && len(node.filterRequirements.statusCodes) == 0 {
+	if flow.IsUserFlow() && len(flow.GetFilter().GetAllowedStatusCodes()) == 0 {
 		log.Trace().Msgf("Status code not specified for %s", flow.GetName())
 		return true
 	}
@@ -84,7 +84,7 @@ func (node *FilterNode) isMethodQualified(
 	flow internaltypes.FlowI,
 	APIStream publictypes.APIStreamI,
 ) bool {
-	if flow.IsUserFlow() && len(node.filterRequirements.methods) == 0 {
+	if flow.IsUserFlow() && len(flow.GetFilter().GetAllowedMethods()) == 0 {
 		log.Trace().Msgf("Method not specified on Flow: %s", flow.GetName())
 		return true
 	}
@@ -110,7 +110,7 @@ func (node *FilterNode) isQueryParamsQualified(
 		return true
 	}
 
-	if flow.IsUserFlow() && len(node.filterRequirements.queryParams) == 0 {
+	if flow.IsUserFlow() && len(flow.GetFilter().GetAllowedQueryParams()) == 0 {
 		log.Trace().Msgf("Query params not specified")
 		return true
 	}
